@@ -597,7 +597,7 @@ def execute(ctx, cases, model_ok, res):
 def all_cases(ctx):
     rng = ctx.rng
     cases = vlib.load_corpus(PROP) + family_cases()
-    for _ in range(min(ctx.n(900, 9000), 12000)):      # search (scale 10) is capped: ~30 ms per case
+    for _ in range(min(ctx.n(900, 6000), 12000)):      # search (scale 10) is capped: ~30 ms per case
         cases.append(gen_case(rng))
     return cases
 
